@@ -331,6 +331,11 @@ func (n *Namespace) verifyShardRules() error {
 			}
 		}
 
+		// the proxy expands every rule's database list when it loads the namespace (parseDefaultPhyDB)
+		if _, err := getRealDatabases(s.Databases); err != nil {
+			return err
+		}
+
 		switch s.Type {
 		case ShardDefault:
 			return errors.New("[default-rule] duplicate, must only one")
